@@ -128,7 +128,7 @@ impl AtomicBuffer {
     #[inline]
     pub fn view(&self, offset: Index, len: Index) -> Self {
         #[cfg(unitedtraders_aeron_rs_verif)]
-        let _verif = crate::verif_hook::enter(crate::verif_hook::AccessKind::View, self.ptr as usize + offset as usize, len as usize, 0, 0);
+        let _verif = crate::verif_hook::enter(crate::verif_hook::AccessKind::View, (self.ptr as usize).wrapping_add(offset as usize), len as usize, 0, 0);
         self.bounds_check(offset, len);
 
         Self {
@@ -150,7 +150,7 @@ impl AtomicBuffer {
     #[inline]
     pub fn get<T: Copy>(&self, position: Index) -> T {
         #[cfg(unitedtraders_aeron_rs_verif)]
-        let _verif = crate::verif_hook::enter(crate::verif_hook::AccessKind::Get, self.ptr as usize + position as usize, std::mem::size_of::<T>(), 0, 0);
+        let _verif = crate::verif_hook::enter(crate::verif_hook::AccessKind::Get, (self.ptr as usize).wrapping_add(position as usize), std::mem::size_of::<T>(), 0, 0);
         self.bounds_check(position, std::mem::size_of::<T>() as Index);
         unsafe { (self.at(position) as *mut T).read_unaligned() }
     }
@@ -158,7 +158,7 @@ impl AtomicBuffer {
     #[inline]
     pub fn overlay_struct<T>(&self, position: Index) -> *mut T {
         #[cfg(unitedtraders_aeron_rs_verif)]
-        let _verif = crate::verif_hook::enter(crate::verif_hook::AccessKind::RegionWrite, self.ptr as usize + position as usize, std::mem::size_of::<T>(), 0, 0);
+        let _verif = crate::verif_hook::enter(crate::verif_hook::AccessKind::RegionWrite, (self.ptr as usize).wrapping_add(position as usize), std::mem::size_of::<T>(), 0, 0);
         self.bounds_check(position, std::mem::size_of::<T>() as Index);
         unsafe { self.at(position) as *mut T }
     }
@@ -166,7 +166,7 @@ impl AtomicBuffer {
     #[inline]
     pub fn as_ref<T: Copy>(&self, position: Index) -> &T {
         #[cfg(unitedtraders_aeron_rs_verif)]
-        let _verif = crate::verif_hook::enter(crate::verif_hook::AccessKind::RegionRead, self.ptr as usize + position as usize, std::mem::size_of::<T>(), 0, 0);
+        let _verif = crate::verif_hook::enter(crate::verif_hook::AccessKind::RegionRead, (self.ptr as usize).wrapping_add(position as usize), std::mem::size_of::<T>(), 0, 0);
         self.bounds_check(position, std::mem::size_of::<T>() as Index);
         unsafe { &*(self.at(position) as *const T) }
     }
@@ -179,7 +179,7 @@ impl AtomicBuffer {
     #[inline]
     pub fn set_memory(&self, position: Index, len: Index, value: u8) {
         #[cfg(unitedtraders_aeron_rs_verif)]
-        let _verif = crate::verif_hook::enter(crate::verif_hook::AccessKind::SetMemory, self.ptr as usize + position as usize, len as usize, value as i64, 0);
+        let _verif = crate::verif_hook::enter(crate::verif_hook::AccessKind::SetMemory, (self.ptr as usize).wrapping_add(position as usize), len as usize, value as i64, 0);
         self.bounds_check(position, len);
         let slice = unsafe { slice::from_raw_parts_mut(self.ptr.offset(position as isize), len as usize) };
 
@@ -192,7 +192,7 @@ impl AtomicBuffer {
     #[inline]
     pub fn get_volatile<T: Copy>(&self, position: Index) -> T {
         #[cfg(unitedtraders_aeron_rs_verif)]
-        let _verif = crate::verif_hook::enter(crate::verif_hook::AccessKind::GetVolatile, self.ptr as usize + position as usize, std::mem::size_of::<T>(), 0, 0);
+        let _verif = crate::verif_hook::enter(crate::verif_hook::AccessKind::GetVolatile, (self.ptr as usize).wrapping_add(position as usize), std::mem::size_of::<T>(), 0, 0);
         self.bounds_check(position, std::mem::size_of::<T>() as Index);
         let read = self.get(position);
         fence(Ordering::Acquire);
@@ -202,7 +202,7 @@ impl AtomicBuffer {
     #[inline]
     pub fn put_ordered<T>(&self, position: Index, val: T) {
         #[cfg(unitedtraders_aeron_rs_verif)]
-        let _verif = crate::verif_hook::enter(crate::verif_hook::AccessKind::PutOrdered, self.ptr as usize + position as usize, std::mem::size_of::<T>(), crate::verif_hook::bits_of(&val), 0);
+        let _verif = crate::verif_hook::enter(crate::verif_hook::AccessKind::PutOrdered, (self.ptr as usize).wrapping_add(position as usize), std::mem::size_of::<T>(), crate::verif_hook::bits_of(&val), 0);
         self.bounds_check(position, std::mem::size_of::<T>() as Index);
         fence(Ordering::Release);
         self.put(position, val);
@@ -211,7 +211,7 @@ impl AtomicBuffer {
     #[inline]
     pub fn put<T>(&self, position: Index, val: T) {
         #[cfg(unitedtraders_aeron_rs_verif)]
-        let _verif = crate::verif_hook::enter(crate::verif_hook::AccessKind::Put, self.ptr as usize + position as usize, std::mem::size_of::<T>(), crate::verif_hook::bits_of(&val), 0);
+        let _verif = crate::verif_hook::enter(crate::verif_hook::AccessKind::Put, (self.ptr as usize).wrapping_add(position as usize), std::mem::size_of::<T>(), crate::verif_hook::bits_of(&val), 0);
         self.bounds_check(position, std::mem::size_of::<T>() as Index);
         unsafe { (self.at(position) as *mut T).write_unaligned(val) }
     }
@@ -220,7 +220,7 @@ impl AtomicBuffer {
     #[allow(clippy::cast_ptr_alignment)]
     pub fn put_atomic_i64(&self, offset: Index, val: i64) {
         #[cfg(unitedtraders_aeron_rs_verif)]
-        let _verif = crate::verif_hook::enter(crate::verif_hook::AccessKind::PutAtomicI64, self.ptr as usize + offset as usize, 8, val, 0);
+        let _verif = crate::verif_hook::enter(crate::verif_hook::AccessKind::PutAtomicI64, (self.ptr as usize).wrapping_add(offset as usize), 8, val, 0);
         self.bounds_check(offset, I64_SIZE);
         unsafe {
             let atomic_ptr = self.at(offset) as *const AtomicI64;
@@ -232,7 +232,7 @@ impl AtomicBuffer {
     #[allow(clippy::cast_ptr_alignment)]
     pub fn compare_and_set_i32(&self, position: Index, expected: i32, update: i32) -> bool {
         #[cfg(unitedtraders_aeron_rs_verif)]
-        let _verif = crate::verif_hook::enter(crate::verif_hook::AccessKind::CompareAndSetI32, self.ptr as usize + position as usize, 4, expected as i64, update as i64);
+        let _verif = crate::verif_hook::enter(crate::verif_hook::AccessKind::CompareAndSetI32, (self.ptr as usize).wrapping_add(position as usize), 4, expected as i64, update as i64);
         self.bounds_check(position, I32_SIZE);
         unsafe {
             let ptr = self.at(position) as *const AtomicI32;
@@ -246,7 +246,7 @@ impl AtomicBuffer {
     #[allow(clippy::cast_ptr_alignment)]
     pub fn compare_and_set_i64(&self, position: Index, expected: i64, update: i64) -> bool {
         #[cfg(unitedtraders_aeron_rs_verif)]
-        let _verif = crate::verif_hook::enter(crate::verif_hook::AccessKind::CompareAndSetI64, self.ptr as usize + position as usize, 8, expected, update);
+        let _verif = crate::verif_hook::enter(crate::verif_hook::AccessKind::CompareAndSetI64, (self.ptr as usize).wrapping_add(position as usize), 8, expected, update);
         self.bounds_check(position, I64_SIZE);
         unsafe {
             let ptr = self.at(position) as *const AtomicI64;
@@ -264,7 +264,7 @@ impl AtomicBuffer {
      */
     pub fn add_i64_ordered(&self, offset: Index, delta: i64) {
         #[cfg(unitedtraders_aeron_rs_verif)]
-        let _verif = crate::verif_hook::enter(crate::verif_hook::AccessKind::AddI64Ordered, self.ptr as usize + offset as usize, 8, delta, 0);
+        let _verif = crate::verif_hook::enter(crate::verif_hook::AccessKind::AddI64Ordered, (self.ptr as usize).wrapping_add(offset as usize), 8, delta, 0);
         self.bounds_check(offset, I64_SIZE);
 
         let value = self.get::<i64>(offset);
@@ -275,7 +275,7 @@ impl AtomicBuffer {
     #[inline]
     pub fn put_bytes(&self, offset: Index, src: &[u8]) {
         #[cfg(unitedtraders_aeron_rs_verif)]
-        let _verif = crate::verif_hook::enter(crate::verif_hook::AccessKind::PutBytes, self.ptr as usize + offset as usize, src.len(), src.as_ptr() as i64, 0);
+        let _verif = crate::verif_hook::enter(crate::verif_hook::AccessKind::PutBytes, (self.ptr as usize).wrapping_add(offset as usize), src.len(), src.as_ptr() as i64, 0);
         self.bounds_check(offset, Self::slice_len(src.len()));
 
         unsafe {
@@ -287,7 +287,7 @@ impl AtomicBuffer {
     #[inline]
     pub fn get_bytes<T>(&self, offset: Index, dest: &mut T) {
         #[cfg(unitedtraders_aeron_rs_verif)]
-        let _verif = crate::verif_hook::enter(crate::verif_hook::AccessKind::GetBytes, self.ptr as usize + offset as usize, std::mem::size_of::<T>(), 0, 0);
+        let _verif = crate::verif_hook::enter(crate::verif_hook::AccessKind::GetBytes, (self.ptr as usize).wrapping_add(offset as usize), std::mem::size_of::<T>(), 0, 0);
         let length = std::mem::size_of::<T>();
         self.bounds_check(offset, length as Index);
 
@@ -305,7 +305,7 @@ impl AtomicBuffer {
     #[inline]
     pub fn copy_from(&self, offset: Index, src_buffer: &AtomicBuffer, src_offset: Index, length: Index) {
         #[cfg(unitedtraders_aeron_rs_verif)]
-        let _verif = crate::verif_hook::enter(crate::verif_hook::AccessKind::CopyFrom, self.ptr as usize + offset as usize, length as usize, src_buffer.ptr as i64 + src_offset as i64, 0);
+        let _verif = crate::verif_hook::enter(crate::verif_hook::AccessKind::CopyFrom, (self.ptr as usize).wrapping_add(offset as usize), length as usize, src_buffer.ptr as i64 + src_offset as i64, 0);
         self.bounds_check(offset, length);
         src_buffer.bounds_check(src_offset, length);
         unsafe {
@@ -330,7 +330,7 @@ impl AtomicBuffer {
 
     pub fn as_sub_slice(&self, index: Index, len: Index) -> &[u8] {
         #[cfg(unitedtraders_aeron_rs_verif)]
-        let _verif = crate::verif_hook::enter(crate::verif_hook::AccessKind::RegionRead, self.ptr as usize + index as usize, len as usize, 0, 0);
+        let _verif = crate::verif_hook::enter(crate::verif_hook::AccessKind::RegionRead, (self.ptr as usize).wrapping_add(index as usize), len as usize, 0, 0);
         self.bounds_check(index, len);
         unsafe { slice::from_raw_parts(self.at(index), len as usize) }
     }
@@ -338,7 +338,7 @@ impl AtomicBuffer {
     #[inline]
     pub fn get_string(&self, offset: Index) -> CString {
         #[cfg(unitedtraders_aeron_rs_verif)]
-        let _verif = crate::verif_hook::enter(crate::verif_hook::AccessKind::RegionRead, self.ptr as usize + offset as usize, 4, 0, 0);
+        let _verif = crate::verif_hook::enter(crate::verif_hook::AccessKind::RegionRead, (self.ptr as usize).wrapping_add(offset as usize), 4, 0, 0);
         self.bounds_check(offset, 4);
 
         // String in Aeron has first 4 bytes as length and rest "length" bytes is string body in ASCII
@@ -349,7 +349,7 @@ impl AtomicBuffer {
     #[inline]
     pub fn get_string_without_length(&self, offset: Index, length: Index) -> CString {
         #[cfg(unitedtraders_aeron_rs_verif)]
-        let _verif = crate::verif_hook::enter(crate::verif_hook::AccessKind::RegionRead, self.ptr as usize + offset as usize, length as usize, 0, 0);
+        let _verif = crate::verif_hook::enter(crate::verif_hook::AccessKind::RegionRead, (self.ptr as usize).wrapping_add(offset as usize), length as usize, 0, 0);
         self.bounds_check(offset, length);
 
         unsafe {
@@ -366,7 +366,7 @@ impl AtomicBuffer {
     #[inline]
     pub fn get_string_length(&self, offset: Index) -> Index {
         #[cfg(unitedtraders_aeron_rs_verif)]
-        let _verif = crate::verif_hook::enter(crate::verif_hook::AccessKind::Get, self.ptr as usize + offset as usize, 4, 0, 0);
+        let _verif = crate::verif_hook::enter(crate::verif_hook::AccessKind::Get, (self.ptr as usize).wrapping_add(offset as usize), 4, 0, 0);
         self.bounds_check(offset, 4);
 
         self.get::<i32>(offset) as Index
@@ -376,7 +376,7 @@ impl AtomicBuffer {
     #[inline]
     pub fn put_string(&self, offset: Index, string: &[u8]) {
         #[cfg(unitedtraders_aeron_rs_verif)]
-        let _verif = crate::verif_hook::enter(crate::verif_hook::AccessKind::RegionWrite, self.ptr as usize + offset as usize, string.len() + 4, 0, 0);
+        let _verif = crate::verif_hook::enter(crate::verif_hook::AccessKind::RegionWrite, (self.ptr as usize).wrapping_add(offset as usize), string.len() + 4, 0, 0);
         let length = Self::slice_len(string.len());
         self.bounds_check(offset, length + I32_SIZE);
 
@@ -389,7 +389,7 @@ impl AtomicBuffer {
     #[inline]
     pub fn put_string_without_length(&self, offset: Index, string: &[u8]) -> Index {
         #[cfg(unitedtraders_aeron_rs_verif)]
-        let _verif = crate::verif_hook::enter(crate::verif_hook::AccessKind::RegionWrite, self.ptr as usize + offset as usize, string.len() + 4, 0, 0);
+        let _verif = crate::verif_hook::enter(crate::verif_hook::AccessKind::RegionWrite, (self.ptr as usize).wrapping_add(offset as usize), string.len() + 4, 0, 0);
         let length = Self::slice_len(string.len());
         self.bounds_check(offset, length);
 
@@ -408,7 +408,7 @@ impl AtomicBuffer {
     #[allow(clippy::cast_ptr_alignment)]
     pub fn get_and_add_i64(&self, offset: Index, delta: i64) -> i64 {
         #[cfg(unitedtraders_aeron_rs_verif)]
-        let _verif = crate::verif_hook::enter(crate::verif_hook::AccessKind::GetAndAddI64, self.ptr as usize + offset as usize, 8, delta, 0);
+        let _verif = crate::verif_hook::enter(crate::verif_hook::AccessKind::GetAndAddI64, (self.ptr as usize).wrapping_add(offset as usize), 8, delta, 0);
         self.bounds_check(offset, I64_SIZE);
         unsafe {
             let atomic_ptr = self.at(offset) as *const AtomicI64;
